@@ -70,7 +70,7 @@ func c14Options(c *run.Ctx, idx uint64) {
 		switch r.Intn(4) {
 		case 0: // initial register contents (= palette)
 		case 1:
-			e.SetCReg(0, false, ivg.PaletteIndexColor(uint8(r.Intn(64))))
+			e.SetCReg(0, false, ivg.PaletteIndexColor(r.Byte()))
 		case 2:
 			e.SetCReg(0, false, ivg.BlendColor(r.Byte(), 0x80|uint8(r.Intn(64)), 0x80|uint8(r.Intn(64))))
 		default:
